@@ -27,7 +27,8 @@ func init() {
 		Rule: "exhaustive environment enumeration: inputs = every sequence of <=2 fragments over F (all chunkings) and every sequence of 3 over a 30-fragment core (reduced chunkings) x 8 policies; for each input of n bytes every subset of split points when n<=8 (2^(n-1) chunkings), otherwise every chunking with <=2 split points (<=1 beyond 24 bytes), plus one byte at a time; " +
 			"each chunking also with a zero-length read before every chunk and with the last chunk delivered together with io.EOF; x destination {bytes.Buffer (has WriteString), plain io.Writer}; plus a 10 000-byte input with every single split point in a 64-byte window around each 4096-byte tokenizer refill. " +
 			"Oracle: Sanitize, SanitizeBytes, SanitizeReader and SanitizeReaderToWriter give identical bytes for every non-blank input under every environment; blank input is returned identical by Sanitize and SanitizeBytes; the caller's []byte is unchanged; results already returned (the slice of SanitizeBytes, the buffer of SanitizeReader) still read the same after the policy sanitised a different document through every entry point; a seekable reader from which a prefix was already read yields the result for the remaining suffix; the two cmd binaries (built from /repo) print exactly the harness's reconstruction of their documented policy applied with Sanitize, on every short stdin document and on 64 KiB, 1 MiB + 1 and 3 MiB of stdin. " +
-			"non-trivial = distinct (policy, input, environment) runs whose input contains markup and was split at least once.",
+			"non-trivial = distinct (policy, input, environment) runs whose input contains markup and was split at least once." +
+			" Single tokens of 511 ... 200000 bytes (text, attribute value, comment), whole and split in the middle, into both kinds of destination.",
 		Assumptions: []string{"the cmd binaries are built by bin/check from /repo's working tree into the per-run work directory"},
 		QuickBudget: 50, ThoroughBudget: 800,
 		Run:    runC15,
@@ -38,7 +39,8 @@ func init() {
 		Level: "fault_enumeration",
 		Rule: "exhaustive fault enumeration: inputs = every sequence of <=3 (quick: 3 over a 30-fragment core) fragments over F x policies {comments on/off, space insertion on/off, AllowUnsafe script/style text, element patterns, UGC}; the fault-free write sequence w_1..w_m is recorded, then for every k<=m and each fault kind (only w_k fails; w_k and all later fail; w_k accepts half and fails) and both writer kinds the run is repeated (the injected error rotates through five values: generic, io.EOF, io.ErrShortWrite, io.ErrClosedPipe, a timeout; all five at the first write); " +
 			"and for every byte offset j<=n the reader delivers data[:j] and then a non-EOF error (six kinds: generic, io.ErrUnexpectedEOF, io.ErrClosedPipe, io.ErrNoProgress, a timeout error, a wrapped error), into a bytes.Buffer and into a *bufio.Writer (a destination with Flush() error); every buffer SanitizeReader hands back is written into, as a caller may. Oracle: the returned error is non-nil, the writer sees no call after the failing one, the accepted bytes are a prefix of the fault-free output, SanitizeReader returns an empty buffer on reader failure. " +
-			"non-trivial = distinct (policy, input, fault) runs in which the fault was actually reached.",
+			"non-trivial = distinct (policy, input, fault) runs in which the fault was actually reached." +
+			" A policy that removes script / style but writes their text back escaped (AllowUnsafe + AllowElementsContent) is in the family.",
 		Assumptions: []string{"faults are injected at the io.Reader / io.Writer seam of the exported API only"},
 		QuickBudget: 50, ThoroughBudget: 800,
 		Run:    runC16,
@@ -473,6 +475,39 @@ func runC15(c *run.Ctx) {
 			c.Outcome("long-input-agrees")
 		}
 	}
+	// long single tokens (text run, attribute value, comment) around buffer sizes an adapter might use, delivered whole
+	// and split in the middle, into both kinds of destination
+	if c.Shard >= 4 && c.Shard < 12 {
+		n := []int{511, 512, 1023, 1024, 1025, 4097, 65537, 200000}[c.Shard-4]
+		long := strings.Repeat("abcdefghij", n/10+1)[:n]
+		for _, doc := range []string{long, "<b>" + long + "</b>", `<a href="/x" title="` + long + `">t</a>x`, "t<!--" + long + "-->u", long + "&amp;" + long} {
+			in := []byte(doc)
+			for i := range bs[:4] {
+				b := &bs[i]
+				ref, sig, what := judgeC15Base(b, in)
+				if sig != "" {
+					c.Violate(sig, what+fmt.Sprintf(" (%d-byte token)", n), mkCase(b.S, in))
+					continue
+				}
+				for _, cuts := range [][]int{nil, {len(in) / 2}} {
+					for plain := 0; plain < 2; plain++ {
+						e := c15Env{Cuts: cuts, Plain: plain == 1}
+						out, err, pm := runEnv(b.P, in, e)
+						c.Eval()
+						c.Transitions++
+						c.NontrivialN++
+						if pm != "" || err != nil || !bytes.Equal(out, ref) {
+							cs := mkCase(b.S, in)
+							ex, _ := json.Marshal(e)
+							cs.Extra = ex
+							c.Violate("long-token", fmt.Sprintf("input with a %d-byte token (plain writer=%v, cuts=%v): %d output bytes, Sanitize gives %d (err=%v panic=%q); policy=%s", n, plain == 1, cuts, len(out), len(ref), err, pm, b.S.Name), cs)
+						}
+					}
+				}
+				c.Outcome("long-token-agrees")
+			}
+		}
+	}
 
 }
 
@@ -521,6 +556,8 @@ type c16Fault struct {
 func c16Specs() []built {
 	ss := specsByName("bpbr-comments", "bpbr-spaces", "bpbr", "pattern-bare", "ugc", "everything-named")
 	ss = append(ss, spec.Spec{Name: "c16-unsafe", Base: "new", Calls: []C{opt("AllowUnsafe", true), els("script", "style", "b"), {Op: "AllowComments"}, opt("AddSpaceWhenStrippingTag", true)}})
+	// script / style removed but their text written back (escaped): a write site of its own in the text-token branch
+	ss = append(ss, spec.Spec{Name: "c16-unsafe-text-kept", Base: "new", Calls: []C{opt("AllowUnsafe", true), els("b"), {Op: "AllowElementsContent", Names: []string{"script", "style"}}}})
 	return buildAll(ss)
 }
 
